@@ -267,6 +267,7 @@ def run_pipes(ctx, kind, pipes, full_idx):
         for (kindx, pipe, _, _), (bad, divs, parts) in zip(jobs, pool.imap(_pipe_job, jobs, chunksize=8)):
             for d in divs:
                 ctx.divergence(d)
+            core.PROGRESS["t"] = __import__("time").time()
             ctx.parts = getattr(ctx, "parts", 0) + parts
             if bad:
                 ctx.violation("%s: %s" % ("Requestant" if kind == "req" else "Respondent", bad), {"kind": "message", "side": kind, "pipe": pipe})
